@@ -6,8 +6,8 @@ stack): an abort, stack overflow or stall is attributed to the case in flight by
 and becomes outcome PANIC / TIMEOUT with the graph as the replay.
 
 Cost: Spec/P20.v topo_ok_b calls reach_b once per edge (a closure each) - roughly quartic on deep
-connected graphs. Shapes whose closures are small (fans, flat sets, pairs) go to 1000 nodes with the
-oracle; deep ones (chains of recursive types, two-way chains) carry the oracle to ~150 nodes and
+connected graphs. Shapes whose closures are small (fans, flat sets, pairs) go to 600 (thorough 1500) nodes with
+the oracle (node labels are unary numbers in the extracted model: everything is cubic); deep ones (chains of recursive types, two-way chains) carry the oracle to ~150 nodes and
 beyond that are judged through the model alone (stream *-huge): implementation == model output,
 which C20's theorems show to satisfy the property for every graph and order; on a disagreement the
 full oracle is run on that case whatever it costs."""
@@ -84,7 +84,7 @@ def topo_size_cases(tier, rng):
         edges = [(a, b) for a in range(n) for b in range(n) if rng.random() < dens]
         req = [i for i in range(n) if rng.random() < 0.3] or [rng.randrange(n)]
         cases.append({"adj": P.adj_of(n, edges), "req": req, "n": n, "big": "dense-random"})
-    for n in ([150, 300, 1000] if tier == "quick" else [101, 150, 300, 1000, 3000]):
+    for n in ([150, 300, 600] if tier == "quick" else [101, 150, 300, 600, 1000, 1500]):
         for name in CHEAP:
             e, req = shapes(n)[name]
             cases.append({"adj": P.adj_of(n, e), "req": req, "n": n, "big": name})
@@ -92,6 +92,9 @@ def topo_size_cases(tier, rng):
         for name in DEEP:
             e, req = shapes(n)[name]
             cases.append({"adj": P.adj_of(n, e), "req": req, "n": n, "big": name})
+    # vlib shards a case list into contiguous chunks: stride the list so that the few expensive
+    # cases (the largest sizes) do not share one shard
+    cases = [cases[j] for i in range(vlib.NCPU) for j in range(i, len(cases), vlib.NCPU)]
     for i, c in enumerate(cases):
         c["id"] = i
         c["reps"] = 1
@@ -100,7 +103,7 @@ def topo_size_cases(tier, rng):
 
 def topo_huge_cases(tier, rng):
     cases = []
-    for n in ([300, 1000] if tier == "quick" else [300, 1000, 3000]):
+    for n in ([300, 700] if tier == "quick" else [300, 700, 1000, 2000]):
         for name in DEEP:
             e, req = shapes(n)[name]
             cases.append({"adj": P.adj_of(n, e), "req": req, "n": n, "big": name})
@@ -157,7 +160,7 @@ def kahn_size_cases(tier, rng):
         cases.append({"nodes": nodes, "deps": [[a, b] for a in range(n) for b in range(a)] + [[0, n - 1]], "big": "tournament+back"})
         cases.append({"nodes": nodes, "deps": [list(e) for e in K(n, False)], "big": "complete"})
         cases.append({"nodes": nodes, "deps": [list(e) for e in K(n, True)], "big": "complete+loops"})
-    for n in ([150, 300, 1000] if tier == "quick" else [101, 150, 300, 1000, 3000]):
+    for n in ([150, 300, 600] if tier == "quick" else [101, 150, 300, 600, 1000, 1500]):
         nodes = list(range(n))
         cases.append({"nodes": nodes, "deps": [], "big": "isolated"})
         cases.append({"nodes": nodes, "deps": [[i, 0] for i in range(1, n)], "big": "in-star"})
